@@ -55,3 +55,37 @@ Proof.
   assert (fsub a b = B754_nan) by (destruct H as [H|H]; destruct a; try discriminate; destruct b; try discriminate; reflexivity).
   rewrite H0. reflexivity.
 Qed.
+
+(* ---- symmetry of abs_diff_eq: |a - b| and |b - a| are the same binary64 number ---- *)
+Lemma round_NE_opp_64 r : rnd (- r) = - rnd r.
+Proof. unfold rnd. apply round_NE_opp. Qed.
+
+Lemma fabs_fsub_sym a b : fabs (fsub a b) = fabs (fsub b a).
+Proof.
+  unfold fabs, fsub.
+  destruct a as [sa|sa| |sa ma ea Ha], b as [sb|sb| |sb mb eb Hb];
+    try (destruct sa; destruct sb; reflexivity); try (destruct sa; reflexivity); try (destruct sb; reflexivity); try reflexivity.
+  set (x := B754_finite sa ma ea Ha). set (y := B754_finite sb mb eb Hb).
+  generalize (Bminus_correct prec emax _ _ mode_NE x y eq_refl eq_refl).
+  generalize (Bminus_correct prec emax _ _ mode_NE y x eq_refl eq_refl).
+  replace (B2R y - B2R x) with (- (B2R x - B2R y)) by ring.
+  change (round radix2 fexp64 (round_mode mode_NE) (- (B2R x - B2R y))) with (rnd (- (B2R x - B2R y))).
+  rewrite round_NE_opp_64, Rabs_Ropp. fold (rnd (B2R x - B2R y)).
+  destruct (Rlt_bool (Rabs (rnd (B2R x - B2R y))) (bpow radix2 emax)).
+  - intros (R1 & F1 & _) (R2 & F2 & _).
+    apply B2R_Bsign_inj.
+    + destruct (Bminus mode_NE x y); try discriminate; reflexivity.
+    + destruct (Bminus mode_NE y x); try discriminate; reflexivity.
+    + rewrite !B2R_Babs, R1, R2, Rabs_Ropp. reflexivity.
+    + assert (S : forall z : F, is_finite z = true -> Bsign (Babs z) = false) by (intros z; destruct z; try discriminate; reflexivity).
+      rewrite (S _ F1), (S _ F2). reflexivity.
+  - intros (H1 & _) (H2 & _).
+    assert (I1 : exists s, Bminus mode_NE y x = B754_infinity s).
+    { destruct (Bminus mode_NE y x) as [s|s| |s m e B]; cbn in H1; unfold binary_overflow in H1; cbn in H1; try discriminate; eauto. }
+    assert (I2 : exists s, Bminus mode_NE x y = B754_infinity s).
+    { destruct (Bminus mode_NE x y) as [s|s| |s m e B]; cbn in H2; unfold binary_overflow in H2; cbn in H2; try discriminate; eauto. }
+    destruct I1 as (s1 & ->). destruct I2 as (s2 & ->). reflexivity.
+Qed.
+
+Theorem absdiffeq_sym a b eps : f_absdiffeq a b eps = f_absdiffeq b a eps.
+Proof. unfold f_absdiffeq. now rewrite fabs_fsub_sym. Qed.
